@@ -857,7 +857,7 @@ class TemplateModel(object):
         # Order the channels by decreasing amplitude.
         order = np.argsort(amplitude[channel_ids])[::-1]
         channel_ids = channel_ids[order]
-        amplitude = amplitude[order]
+        amplitude = amplitude[channel_ids]
         assert best_channel in channel_ids
         assert amplitude.shape == (len(channel_ids),)
         return channel_ids, amplitude, best_channel
